@@ -84,6 +84,10 @@ class GuardWalk:
             for e in self.exits[n_before:]:
                 if e.test is s or e.node is s:
                     self._path = c_andx(self._path, c_notx(e.cond))
+                elif e.loops == loops and isinstance(s, ast.If):
+                    # an exit nested deeper inside this `if` (same loop
+                    # level): what follows runs only if it was not taken
+                    self._path = c_andx(self._path, c_notx(e.cond))
         self._path = saved
         return env
 
